@@ -112,6 +112,12 @@ def _transfer(ctx, line, src, body_len, sf, wbit, corrupt=None, via="send_messag
     sender, receiver = line.ends[src], line.ends[dst]
     body = rng.randbytes(body_len)
     system = sender.protocol.get_next_system_counter()
+    done_before = getattr(line, "completed_systems", {}).get(src, [])
+    if done_before and corrupt is None and rng.random() < 0.15:
+        # a later transaction may carry system bytes the receiver has seen before (16-bit counters, the two ends counting
+        # independently): it is a new message
+        system = rng.choice(done_before)
+        ctx.count("transfer.system_bytes_reused_after_a_completed_message")
     header = SH.SecsIHeader(system, rng.randint(0, 0x7FFF), sf[0], sf[1], 0, src == "E", wbit)
     msg = SM.SecsIMessage(header, body)
     nblocks = len(msg.blocks)
@@ -171,6 +177,9 @@ def _transfer(ctx, line, src, body_len, sf, wbit, corrupt=None, via="send_messag
             return "dead"
         if any(a != wire.ACK for _, _, a in blocks) or len(blocks) != nblocks:
             ctx.violation("clean-transfer-not-all-acked", {**tw, "acks": [a for _, _, a in blocks]})
+        if nblocks > 1:
+            line.__dict__.setdefault("completed_systems", {}).setdefault(src, []).append(system)
+            del line.completed_systems[src][:-8]
         if len(got) != 1:
             ctx.violation("success-but-not-delivered-exactly-once", {**tw, "delivered": len(got)})
         else:
